@@ -22,6 +22,27 @@ reg("C04", "model_checking",
     "Reference codec/receiver mc/env/ref_ash.py (anchored to UG101 literal vectors); payload contents are one pattern; frames arrive whole (chunking is C02).",
     "DESIGN.md section 3 C04")
 
+reg("C02", "exploration",
+    "bounded exhaustive enumeration of byte streams x read chunkings against an independent reference decoder",
+    "Every stream of <= 3 (thorough 4) tokens over a 30-token reserved-byte-rich alphabet, in every chunking (all 2^(n-1) for short streams), plus all 2-byte / selected 3-byte raw streams from "
+    "every expected-number state, many-frames-per-read cases around the buffer bound, a garbage x read-size memory matrix, and the local commutation step feed(x+y) == feed(x);feed(y) "
+    "from every reachable receiver state; outputs (deliveries, ACK/NAK numbers) compared with mc/env/ref_ash.RefReceiver.",
+    "Reference decoder is my reading of UG101 (anchored by literal vectors). Streams longer than the token bound are covered only through the commutation step; nothing is sampled.",
+    "DESIGN.md section 3 C02")
+
+reg("C03", "exploration",
+    "complete enumeration of frame fields / codes / lengths / bit flips against an independently written ASH encoder",
+    "All frame types x all control-field values x 256 codes x payload lengths 0..200 x 5 payload patterns (thorough: full product), all 256 control bytes, every 1- and 2-bit corruption of 7 short frames; "
+    "to_bytes, the bytes reaching transport.write(), parse_frame of both encodings, stuffing of every byte value.",
+    "Reference encoder mc/env/ref_ash.py (bitwise CRC, LFSR from the UG101 rule), anchored to UG101 literal vectors.",
+    "DESIGN.md section 3 C03")
+
+reg("C18", "exploration",
+    "complete enumeration of both 8-bit status families, all unified statuses and undefined 32-bit values",
+    "Exhaustive over the input domain of sl_Status.from_ember_status: totality, pass-through, OK iff success code, steering codes against an independently typed numeric table.",
+    "Steering table typed from EmberZNet headers as numbers in mc/checks/c18.py.",
+    "DESIGN.md section 3 C18")
+
 ALL = ["C%02d" % i for i in range(1, 21)]
 
 
